@@ -154,12 +154,15 @@ def find_peaks(data, threshold, *, box_size=3, footprint=None, mask=None,
         data = np.copy(data)  # ndarray
         data[nan_mask] = nanmin(data)
 
+    # pad with the minimum value so that pixels outside of the image
+    # never exceed a (possibly negative) local maximum next to the edge
+    cval = np.min(data)
     if footprint is not None:
         data_max = maximum_filter(data, footprint=footprint, mode='constant',
-                                  cval=0.0)
+                                  cval=cval)
     else:
         data_max = maximum_filter(data, size=box_size, mode='constant',
-                                  cval=0.0)
+                                  cval=cval)
 
     peak_goodmask = (data == data_max)  # good pixels are True
 
